@@ -738,6 +738,11 @@ func runW(c WCase) pbt.Verdict {
 		return pbt.Verdict{Discard: true}
 	}
 	defer v.close()
+	return runWOn(v, c)
+}
+
+// runWOn judges a wire case against an existing victim (the native fuzz target reuses one victim per worker).
+func runWOn(v *victim, c WCase) pbt.Verdict {
 	cfg := conn.ConfigFixture()
 	cfg.HandshakeTimeout = 5 * time.Second
 	hs, err := conn.NewHandshaker(cfg, tally.NoopScope, clock.New(), networkevent.NewTestProducer(), peerID(1), noEvents{}, zap.NewNop().Sugar())
